@@ -86,9 +86,15 @@ mutant b1_same_sequence elements/bar.py \
 mutant b6_other_object elements/bar.py \
   'cpy = self\.__class__\(self\.sequence\.copy\(\),' 'cpy = self.__class__(Sequence(),' \
   "Bar.copy passes a different object than self.sequence.copy(): a new empty Sequence"
-mutant b7_object_in_scalar elements/bar.py \
-  'self\.default_channel = default_channel' 'self.default_channel = sequence' \
-  "Bar.__init__ stores an OBJECT in the attribute treated as a scalar outside the identity state (must be refused)"
+mutant b7_stored_channel elements/bar.py \
+  '(self\.key_signature = key\n)' '\1        self.default_channel = default_channel\n' \
+  "Bar.__init__ stores default_channel in an attribute the cells do not have (the first repair of D37, f9ef398; must be refused)"
+mutant b9_copy_reads_abs elements/bar.py \
+  'for msg in self\.sequence\.rel\._messages' 'for msg in self.sequence.abs._messages' \
+  "Bar.copy looks for the time signature through the ABSOLUTE view (regenerates another view of the ORIGINAL: another write of the source)"
+mutant b10_copy_no_read elements/bar.py \
+  'time_signature = next\(\(msg for msg in self\.sequence\.rel\._messages\n\s+if msg\.message_type == MessageType\.TIME_SIGNATURE\), None\)' 'time_signature = None' \
+  "Bar.copy does not read the relative view of the original (HeapOps.barCopy reads it: readRel)"
 mutant b8_ts_channel elements/bar.py \
   'channel=default_channel,' 'channel=0,' \
   "the TIME_SIGNATURE message no longer takes its channel from default_channel (the oracle entry is keyed by the source text)"
